@@ -184,6 +184,9 @@ func finish(c *Ctx, spec *propSpec, tier string, start time.Time, extra map[stri
 	for _, rn := range c.p.Renames {
 		fmt.Println("NOTE renamed identifier analysed under its frozen name: " + rn)
 	}
+	for _, rn := range c.p.Inlined {
+		fmt.Println("NOTE " + rn)
+	}
 	// per-rule summary
 	type rs struct{ pass, known, viol, und int }
 	per := map[string]*rs{}
@@ -259,6 +262,9 @@ func finish(c *Ctx, spec *propSpec, tier string, start time.Time, extra map[stri
 	cov["positive_controls"] = controlsSummary
 	if len(c.p.Renames) > 0 {
 		cov["normalised_renames"] = c.p.Renames
+	}
+	if len(c.p.Inlined) > 0 {
+		cov["normalised_helpers"] = c.p.Inlined
 	}
 	for k, v := range extra {
 		cov[k] = v
